@@ -102,7 +102,7 @@ package origins
 //@ func parseHostPattern
 //@   props C01 C04 C05 C13 C15 C17
 //@   pure
-//@   ensures C13.host_error_names_pattern: result2 != nil ==> dyntype(result2, "*cfgerrors.UnacceptableOriginPatternError") && payload(result2, "*cfgerrors.UnacceptableOriginPatternError") != nil && payload(result2, "*cfgerrors.UnacceptableOriginPatternError").Value === full && (payload(result2, "*cfgerrors.UnacceptableOriginPatternError").Reason == "invalid" || payload(result2, "*cfgerrors.UnacceptableOriginPatternError").Reason == "prohibited")
+//@   ensures host_error_names_pattern: result2 != nil ==> dyntype(result2, "*cfgerrors.UnacceptableOriginPatternError") && payload(result2, "*cfgerrors.UnacceptableOriginPatternError") != nil && payload(result2, "*cfgerrors.UnacceptableOriginPatternError").Value === full && (payload(result2, "*cfgerrors.UnacceptableOriginPatternError").Reason == "invalid" || payload(result2, "*cfgerrors.UnacceptableOriginPatternError").Reason == "prohibited")
 //@   ensures result2 == nil ==> fastParseHost$2(HostOnlyOf(str, peekKind(str))) && result1 === fastParseHost$1(HostOnlyOf(str, peekKind(str))) && len(fastParseHost$0(HostOnlyOf(str, peekKind(str))).Value) >= 1
 //@   ensures C13.wildcard_needs_domain: result2 == nil && peekKind(str) == 3 ==> result0.Kind == 3 && !fastParseHost$0(HostOnlyOf(str, 3)).AssumeIP && len(fastParseHost$0(HostOnlyOf(str, 3)).Value) <= 251 && result0.Value === str[:len(fastParseHost$0(HostOnlyOf(str, 3)).Value) + 2]
 //@   ensures result2 == nil && peekKind(str) == 0 && !fastParseHost$0(str).AssumeIP ==> result0.Kind == 0 && result0.Value === str[:len(fastParseHost$0(str).Value)]
@@ -112,7 +112,7 @@ package origins
 //@ func ParsePattern
 //@   props C01 C04 C05 C13 C15 C17
 //@   pure
-//@   ensures C13.error_names_pattern: result1 != nil ==> dyntype(result1, "*cfgerrors.UnacceptableOriginPatternError") && payload(result1, "*cfgerrors.UnacceptableOriginPatternError") != nil && payload(result1, "*cfgerrors.UnacceptableOriginPatternError").Value === str && (payload(result1, "*cfgerrors.UnacceptableOriginPatternError").Reason == "invalid" || payload(result1, "*cfgerrors.UnacceptableOriginPatternError").Reason == "prohibited")
+//@   ensures error_names_pattern: result1 != nil ==> dyntype(result1, "*cfgerrors.UnacceptableOriginPatternError") && payload(result1, "*cfgerrors.UnacceptableOriginPatternError") != nil && payload(result1, "*cfgerrors.UnacceptableOriginPatternError").Value === str && (payload(result1, "*cfgerrors.UnacceptableOriginPatternError").Reason == "invalid" || payload(result1, "*cfgerrors.UnacceptableOriginPatternError").Reason == "prohibited")
 //@   ensures C13.no_null_star_file: result1 == nil ==> str != "*" && str != "null" && parseScheme$2(str) && result0.Scheme === parseScheme$0(str) && result0.Scheme != "file"
 //@   ensures C13.scheme_host_separator: result1 == nil ==> len(parseScheme$1(str)) >= 3 && parseScheme$1(str)[:3] == "://"
 //@   ensures C13.host: result1 == nil ==> parseHostPattern$2(parseScheme$1(str)[3:], str) == nil && result0.HostPattern === parseHostPattern$0(parseScheme$1(str)[3:], str)
